@@ -17,6 +17,12 @@ func owns(prop, oracle string) bool {
 		return true
 	}
 	switch prop {
+	case "C04":
+		// "an update whose stacked result fails to stack or verify is not
+		// installed": what the stacked result of an update IS, is the fresh
+		// stack of the slots at that moment (a version built on a stale slot is
+		// an update installed although its real stack may have been rejected)
+		return oracle == "C05.stale-slot" || oracle == "C05.fresh-stack"
 	case "C09":
 		// "OnWatchedError ... withheld only while the delay is in force and the
 		// suppress option is set": rejections after enabling must be delivered
